@@ -32,6 +32,66 @@ def payload_sizes(name: str, rng):
     return [S.spec_size(S.SPEC_FULL[name])]
 
 
+def scramble(o, depth=0):
+    """mutate every list reachable from a decoded object in place (what a caller editing a decoded model does)"""
+    import dataclasses
+    if depth > 8:
+        return
+    if isinstance(o, list):
+        for i, el in enumerate(o):
+            if isinstance(el, bool):
+                o[i] = not el
+            elif isinstance(el, int):
+                o[i] = el + 1
+            elif isinstance(el, str):
+                o[i] = el + "~"
+            else:
+                scramble(el, depth + 1)
+        o.reverse()
+    elif dataclasses.is_dataclass(o) and not isinstance(o, type):
+        for f in dataclasses.fields(o):
+            scramble(getattr(o, f.name), depth + 1)
+
+
+def check_decode_is_fresh(name: str, payload: bytes):
+    """histories: a decoded model edited by its owner must not show through in a later decode of the same bytes, nor
+    in another record of the same section that happens to hold the same bytes"""
+    from richchk.transcoder.chk.chk_section_transcoder_factory import ChkSectionTranscoderFactory
+    from richchk.model.chk_section_name import ChkSectionName
+    sp = S.SPEC_FULL[name]
+    mk = lambda: ChkSectionTranscoderFactory.make_chk_section_transcoder(ChkSectionName.get_by_value(name))  # noqa
+    try:
+        first = mk().decode(payload)
+        scramble(first)
+        again = mk().decode(payload)
+    except Exception as ex:  # noqa
+        return f"decode raised {ex!r}"
+    want, _ = S.spec_parse(sp, payload, 0)
+    m = S.spec_mismatch(sp, want, again, name.strip())
+    if m:
+        return "a second decode of the same bytes, after the first result was edited in place: " + m
+    rec = {"MRGN": 20, "TRIG": 2400}.get(name)
+    if rec and len(payload) >= rec:
+        twice = payload[:rec] * 2
+        want2, _ = S.spec_parse(sp, twice, 0)
+        try:
+            obj = mk().decode(twice)
+        except Exception as ex:  # noqa
+            return f"decode raised {ex!r}"
+        lst = next((getattr(obj, f.name) for f in __import__("dataclasses").fields(obj) if isinstance(getattr(obj, f.name), list)), None)
+        if lst and len(lst) == 2:
+            scramble(lst[0])
+            keep = lst[1]
+            lst_copy = [keep, keep]
+            import copy
+            probe = copy.copy(obj)
+            object.__setattr__(probe, next(f.name for f in __import__("dataclasses").fields(obj) if isinstance(getattr(obj, f.name), list)), lst_copy)
+            m = S.spec_mismatch(sp, want2, probe, name.strip())
+            if m:
+                return "two records holding the same bytes share one decoded object (editing record 0 changed record 1): " + m
+    return None
+
+
 def check_table_section(name: str, payload: bytes):
     """the property on the implementation: decode == spec read (by field name), encode(spec model) == payload"""
     from richchk.transcoder.chk.chk_section_transcoder_factory import ChkSectionTranscoderFactory
@@ -53,7 +113,7 @@ def check_table_section(name: str, payload: bytes):
     if out != payload:
         i = next((k for k in range(min(len(out), len(payload))) if out[k] != payload[k]), min(len(out), len(payload)))
         return f"encode: byte {i} differs (len {len(out)} vs {len(payload)})"
-    return None
+    return check_decode_is_fresh(name, payload)
 
 
 def check_str_section(name: str, payload: bytes):
